@@ -495,14 +495,24 @@ end
 def fragDeps (D : Document) (n : String) : List String :=
   (fragDefs D).flatMap fun f => if f.1 = n then spreadsInSet f.2.2 else []
 
-/-- Fragments reachable from `from` in one or more spreads (`k` rounds of closure). -/
+/-- Fragments reachable from `acc` by spreads: `k` rounds of closure (each round adds the fragments
+    spread directly by those found so far). -/
 def reachable (D : Document) : Nat → List String → List String
   | 0, acc => acc
   | k + 1, acc => reachable D k (dedup (acc ++ acc.flatMap (fragDeps D)))
 
+def defSelOf : Definition → SelSet
+  | .op _ _ _ _ sel => sel
+  | .frag _ _ _ _ _ sel _ => sel
+
+/-- Every spread written in the document. A round of the closure that finds something new follows
+    at least one of them for the first time, so this many rounds reach the fixed point
+    (`Lemmas.mem_roundsOf_iff`). -/
+def allSpreads (D : Document) : List String := D.flatMap fun d => spreadsInSet (defSelOf d)
+
 /-- §5.5.2.2 Fragment spreads must not form cycles. -/
 def noFragmentCycles (D : Document) : Bool :=
-  (fragNames D).all fun n => !(reachable D (fragNames D).length (dedup (fragDeps D n))).contains n
+  (fragNames D).all fun n => !(reachable D (allSpreads D).length (dedup (fragDeps D n))).contains n
 
 /-- §5.3.2 Field Selection Merging: FieldsInSetCanMerge holds for every selection set. The rule is
     stated for documents whose fragment spreads form no cycle (§5.5.2.2 is what makes the expansion
@@ -737,7 +747,7 @@ def usagesOcc (S : Schema) : Occ → List Usage
 
 /-- Fragment names reachable from a list of spread names (each once), by rounds of closure. -/
 def reachableFrom (D : Document) (start : List String) : List String :=
-  reachable D (fragNames D).length (dedup start)
+  reachable D (allSpreads D).length (dedup start)
 
 def fragUsages (S : Schema) (D : Document) (n : String) : List Usage :=
   D.flatMap fun
